@@ -948,8 +948,10 @@ def _jn_key_dispatch(cx, rep, port, p, mod, ms):
             bad.append('key index {} gives the B key {} instead of {}'.format(idx[0], show(val), want))
     if und and not bad:
         rep.undecided('key dispatch', init, und[0])
+        return False
     else:
         rep.decide(not bad, 'key dispatch', init, 'the key function chosen by the constructor yields, for every tried list of key indices, the record number / fields in ON-clause order ({} index lists)'.format(len(cases)), '; '.join(bad[:2]))
+    return not bad
 
 
 def _jn_key_functions(cx, rep, port, p, mod, ms):
@@ -1027,11 +1029,100 @@ def _jn_key_functions(cx, rep, port, p, mod, ms):
         rep.decide(not bad_nr and not bad_other, mname + ' NR key', m, 'index -1 selects the B record number, otherwise the field', 'the bNR key component is not "record number if index == -1 else field": {}'.format('; '.join((bad_nr + bad_other)[:2])))
 
 
-def rule_jn_build(cx, rep, port):
-    p = cx.port(port)
-    mod = cx.engine_mod(port)
-    hm = p.cls(mod, 'HashJoinMap')
-    ms = roles.methods(hm)
+def _jn_build_model(cx, rep, port, p, mod, ms):
+    """HashJoinMap.build / get_join_records decided on an abstract B table: three records (2, 3 and 2 fields; the first and the third with the
+    same key) behind an iterator that then reports its end.  The map must hold, per key, the triples (record number from 1, field count,
+    the record itself) in read order; max_record_len must be 3; the iterator is asked exactly until it reports its end; an unknown key
+    gives no matches.  True when the exploration could be carried out."""
+    import collections
+    from .. import absexec as AX
+    init = ms.get('__init__') or ms.get('init')
+    b, gj = ms.get('build'), ms.get('get_join_records')
+    if init is None or b is None or gj is None:
+        return False
+    selfv, it = AX.Abs('Self'), AX.Abs('Iter')
+    k1, k2, other = AX.Abs('Key', id='K1'), AX.Abs('Key', id='K2'), AX.Abs('Key', id='K3')
+    r1 = [k1, AX.Abs('Fld', id='r1f1')]
+    r2 = [k2, AX.Abs('Fld', id='r2f1'), AX.Abs('Fld', id='r2f2')]
+    r3 = [k1, AX.Abs('Fld', id='r3f1')]
+    script = [r1, r2, r3, None, None]
+    asked = []
+    interned = {}
+
+    def on_call(ex, node, fname, recv, args):
+        short = node.func.attr if isinstance(node.func, ast.Attribute) else fname.split('.')[-1]
+        if recv is it and short == 'get_record':
+            asked.append(1)
+            return script[min(len(asked) - 1, len(script) - 1)]
+        if short.endswith('Error'):
+            return AX.Abs(short)
+        if fname == 'JSON.stringify' and len(args) == 1 and isinstance(args[0], (list, tuple)):
+            return interned.setdefault(tuple(id(x) for x in args[0]), AX.Abs('Json', items=tuple(args[0])))
+        if recv is None and short == 'defaultdict':
+            return collections.defaultdict(list)
+        if recv is None and short in ('Map', 'dict', 'OrderedDict'):
+            return {}
+        return AX.NOT_HANDLED
+    ex = AX.Explorer(p, mod, on_call=on_call, max_choices=1)
+    ex.cls = 'HashJoinMap'
+    ex._script, ex._pos, ex.steps, ex.depth = [], 0, 0, 0
+    ex.run = AX.Run()
+    try:
+        ex.call_fd(init, [selfv, it, [0]])
+        ex.call_fd(b, [selfv])
+        n_asked = len(asked)
+        m1 = ex.call_fd(gj, [selfv, k1])
+        m2 = ex.call_fd(gj, [selfv, k2])
+        m3 = ex.call_fd(gj, [selfv, other])
+        width = ex.run.state.get((selfv.uid, 'max_record_len'))
+    except AX.Raised as r:
+        rep.violated('B table build', b, 'building the join map over three well-formed B records raises {}'.format(getattr(r.value, 'kind', r.value)))
+        return True
+    except (Undecided, AX.Cut, AX._NeedChoice, KeyError, IndexError, TypeError) as e_:
+        import os
+        if os.environ.get('RBQL_VERIF_DEBUG'):
+            print('JN-BUILD build model gave up:', type(e_).__name__, e_)
+        return False
+
+    def triples(v):
+        if not isinstance(v, (list, tuple)):
+            return None
+        out = []
+        for t in v:
+            if not (isinstance(t, (list, tuple)) and len(t) == 3):
+                return None
+            out.append((t[0], t[1], t[2]))
+        return out
+    t1, t2, t3 = triples(m1), triples(m2), triples(m3)
+    problems = {}
+    if t1 is None or t2 is None or t3 is None:
+        problems['match triple'] = 'B matches are not stored as (record number, field count, record)'
+    else:
+        nums = [x[0] for x in t1 + t2]
+        if sorted(nums) != [1, 2, 3] or [x[0] for x in t1] != [1, 3] or [x[0] for x in t2] != [2]:
+            if sorted(n_ for n_ in nums if isinstance(n_, int)) == [1, 2, 3] and [x[2] for x in t1] != [r1, r3]:
+                problems['B order'] = 'matches of a key are not kept in B order'
+            else:
+                problems['B record number'] = 'B records are not numbered 1, 2, ... in read order (numbers stored: {})'.format(nums)
+        if [x[1] for x in t1 + t2] != [2, 2, 3]:
+            problems['bNF'] = 'bNF is not the field count of the B record (stored: {})'.format([x[1] for x in t1 + t2])
+        if not (len(t1) == 2 and t1[0][2] is r1 and t1[1][2] is r3 and len(t2) == 1 and t2[0][2] is r2):
+            problems.setdefault('B order', 'the records stored for a key are not the B records with that key, in read order')
+        if t3:
+            problems['lookup'] = 'a key that no B record has gives matches'
+    if width != 3:
+        problems['max width'] = 'after B records of 2, 3 and 2 fields max_record_len is {!r} instead of 3'.format(width)
+    if n_asked != 4:
+        problems['B end of input'] = 'the B iterator is asked for a record {} time(s) for a table of three records (must stop at the first end-of-table answer)'.format(n_asked)
+    good = {'B record number': 'bNR counts B records from 1', 'B end of input': 'stops at the first None record', 'match triple': 'matches are stored as (bNR, bNF, record)',
+            'B order': 'matches of a key are appended in B order', 'max width': 'max_record_len is the maximum of the B field counts', 'bNF': 'bNF = len(record)', 'lookup': 'returns the bucket of the key (empty when absent)'}
+    for k in ('B record number', 'B end of input', 'match triple', 'B order', 'max width', 'bNF', 'lookup'):
+        rep.decide(k not in problems, k, b, good[k] + ' (abstract B table of three records)', problems.get(k, ''))
+    return True
+
+
+def _jn_build_shape(cx, rep, port, p, mod, ms):
+    from .. import cfg as cfgmod
     b = ms['build']
     # nr increments by one per record, before use; triple (nr, nf, fields) appended in read order
     nr = 'nr' if port == 'py' else 'self.nr'
@@ -1060,6 +1151,19 @@ def rule_jn_build(cx, rep, port):
         skip = any(gb.exists_path(f_, is_fetch, avoid=is_upd, edge_ok=lambda a_, b_, lab: lab not in ('exc', 'raise', 'assert')) for f_ in fetches)
         if fetches:
             rep.decide(not skip, 'max width every record', mx[0], 'every B record read takes part in the maximum', 'some B records are stored without updating max_record_len (the update sits in a branch): the LEFT JOIN null record can be narrower than the widest B record')
+    nf = [n for n in walk_no_nested(b) if isinstance(n, ast.Assign) and is_name(n.targets[0], nfn)]
+    rep.decide(len(nf) == 1 and node_text(nf[0].value) == 'len({})'.format(rec), 'bNF', nf[0] if nf else b, 'bNF = len(record)', 'bNF is not the field count of the B record')
+
+
+def rule_jn_build(cx, rep, port):
+    p = cx.port(port)
+    mod = cx.engine_mod(port)
+    hm = p.cls(mod, 'HashJoinMap')
+    ms = roles.methods(hm)
+    b = ms['build']
+    modelled = _jn_build_model(cx, rep, port, p, mod, ms)
+    if not modelled:
+        _jn_build_shape(cx, rep, port, p, mod, ms)
     if 'init' in ms or '__init__' in ms:
         ini = ms.get('__init__') or ms.get('init')
         m0 = [n for n in walk_no_nested(ini) if isinstance(n, ast.Assign) and dotted(n.targets[0]) == 'self.max_record_len']
@@ -1067,8 +1171,6 @@ def rule_jn_build(cx, rep, port):
             rep.decide(m0[0].value.value == 0 and m0[0].value.value is not False, 'max width start', m0[0], 'the running maximum starts at 0 (an empty B table gives an empty null record)', 'the running maximum of the B field counts starts at {}: with an empty (or narrower) B table LEFT JOIN pads every record with that many nulls'.format(m0[0].value.value))
         elif m0:
             rep.undecided('max width start', m0[0], 'initial max_record_len is not a constant')
-    nf = [n for n in walk_no_nested(b) if isinstance(n, ast.Assign) and is_name(n.targets[0], nfn)]
-    rep.decide(len(nf) == 1 and node_text(nf[0].value) == 'len({})'.format(rec), 'bNF', nf[0] if nf else b, 'bNF = len(record)', 'bNF is not the field count of the B record')
     if port == 'js' and ('init' in ms or '__init__' in ms):
         # the map from key to matches compares keys like the A-side lookup does (SameValueZero of a Map): a plain object coerces
         # every key to a string (7 and "7", null and "null" meet) and cannot hold the key `__proto__`
@@ -1083,13 +1185,13 @@ def rule_jn_build(cx, rep, port):
     # key functions: index -1 -> record number ; missing field -> runtime error.  Decided on the abstract outcomes of the two key
     # functions for a B record of two fields F0, F1 and the index classes {-1, inside, outside}
     _jn_key_functions(cx, rep, port, p, mod, ms)
-    _jn_key_dispatch(cx, rep, port, p, mod, ms)
+    dispatch_ok = _jn_key_dispatch(cx, rep, port, p, mod, ms)
     # key representation agrees with the lhs expression built by the parser
     init = ms['__init__']
     sel = [n for n in walk_no_nested(init) if isinstance(n, ast.If) and 'len(key_indices) == 1' in node_text(n.test)]
     sp = p.func(mod, 'shallow_parse_input_query')
     lhs = [n for n in walk_no_nested(sp) if isinstance(n, ast.Assign) and (dotted(n.targets[0]) or '').endswith('lhs_join_var_expression')]
-    okrep = len(sel) == 1 and len(lhs) == 1 and isinstance(lhs[0].value, ast.IfExp) and 'len(lhs_variables) == 1' in node_text(lhs[0].value.test)
+    okrep = (len(sel) == 1 or dispatch_ok) and len(lhs) == 1 and isinstance(lhs[0].value, ast.IfExp) and 'len(lhs_variables) == 1' in node_text(lhs[0].value.test)
     rep.decide(okrep, 'key representation', lhs[0] if lhs else sp, 'single key -> bare value on both sides; several -> tuple / JSON array on both sides', 'the A-side key expression and the B-side key builder do not switch representation on the same condition (one key vs several)')
     if okrep:
         multi_b = ms['get_multi_key']
